@@ -7,6 +7,7 @@
 import ModVerif.Model.Modfile.Work
 import ModVerif.Proofs.ModfilePrint
 import ModVerif.Proofs.ModfileFmtConserve
+import ModVerif.Proofs.ModfileFmtDir6
 import ModVerif.Proofs.ModfileFmtQuoteUnquote
 namespace ModVerif.Props.C02
 open ModVerif ModVerif.Modfile
@@ -231,7 +232,11 @@ theorem format_parse_syntax_partial (name x : Bytes) (t : FileSyntax) (h : parse
   format_parse_syntax_noEol name x t h hno
 
 open Proofs.ModfileFmtConserve in
-/-- ★ `format_idempotent_partial` — `format_idempotent` under the same hypothesis. -/
+/-- ★ `format_idempotent_partial` — `format_idempotent` under the same hypothesis.  Without a hypothesis that
+    excludes displaced end-of-line comments the statement is FALSE: see `C02_violated_format_not_idempotent`
+    below (a quoted string containing backslash-newline followed by an end-of-line comment).  `NoEol t`
+    excludes that witness because it has end-of-line comments; strings with backslash-newline but without
+    end-of-line comments are covered by this theorem. -/
 theorem format_idempotent_partial (name x : Bytes) (t t' : FileSyntax) (h : parse name x = .ok t)
     (hno : NoEol t) (h' : parse name (format t) = .ok t') : format t' = format t :=
   format_idempotent_noEol name x t t' h hno h'
@@ -249,6 +254,57 @@ example :
              b.lines.all (·.comments.suffix.isEmpty) && b.rparen.comments.suffix.isEmpty
          | _ => false)
      | .error _ => false) = true := by decide +kernel
+
+/-! ### Clause 3 — directive values survive formatting (strict go.mod, no end-of-line comments) -/
+
+open Proofs.ModfileFmtDir in
+/-- one strict `File.add` step: if it reports no error and its result is well-formed, then the rewritten
+    arguments are line tokens other than parentheses, the state before the step was well-formed, and the
+    step can be replayed on the REWRITTEN arguments — from any state with the same directive values, for any
+    line without end-of-line comment — with the same rewritten arguments and the same values again (the
+    rewritten tokens are fixpoints of `parseString` / `parseVersion` / `parseVersionInterval` /
+    `parseReplace`). -/
+theorem add_step_fixpoint (st st1 : AddState) (block : Option Comments) (l : Line) (verb : Bytes)
+    (args args1 : List Bytes) (fix : Option Fixer)
+    (h : File.add st block l verb args fix true = (st1, args1)) (he : st1.errsRev = [])
+    (hfix : FixOK fix) (hne : FixNE fix) (hl : l.comments.suffix = []) (hwf : WellFormed st1.file)
+    (horig : ∀ t ∈ args, Proofs.ModfileFmtLine.TokText t) :
+    StepOK st st1 verb args1 fix ∧ WellFormed st.file ∧ ArgsTok args1 ∧ args1 ≠ [] :=
+  add_step st st1 block l verb args args1 fix h he hfix hne hl hwf horig
+
+open Proofs.ModfileFmtDir Proofs.ModfileFmtMain in
+/-- ★ `format_preserves_directives_partial` (strict go.mod) — clause 3 of the property for inputs IN WHICH
+    THE LEXER RECORDS NO END-OF-LINE COMMENT (`eolComments x = []`, equivalently `NoEol` of the parsed tree,
+    see `noEol_source`): if the strict parser accepts `x` as a well-formed file `f` (every path non-empty and
+    not a lone bracket/comma, every version a valid semantic version), then it accepts `Format(f.Syntax)`,
+    and the directive values (module path, go, toolchain, godebug, require with indirect flag, exclude,
+    replace, retract intervals, tool) are identical — without a version fixer, or with a fixer that is
+    idempotent on its image and never returns the empty string, provided the file has no `retract` directive
+    in that case (then the deferred `fixRetract` pass, which rewrites the tree by line identity, is not
+    involved).  `Module.Deprecated` and `Retract.Rationale` are derived from comments, not from the
+    directive's arguments, and are not among the values compared.  Missing for the full statement:
+    end-of-line comments (as for clauses 1 and 2; in particular `// indirect`), `fixRetract` with a fixer,
+    and `parseWork`. -/
+theorem format_preserves_directives_partial (name x : Bytes) (fix : Option Fixer) (f : Modfile.File)
+    (h : parseToFile name x fix true = .ok f) (hno : eolComments x = []) (hwf : WellFormed f)
+    (hfix : FixOK fix) (hne : FixNE fix) (hret : fix ≠ none → f.retract = []) :
+    ∃ f', parseToFile name (format f.syn) fix true = .ok f' ∧ values f' = values f :=
+  format_preserves_directives_noeol name x fix f h hno hwf hfix hne hret
+
+/-- non-vacuity (no fixer): a file with every kind of directive, re-quoted arguments, non-canonical
+    versions and a retraction is accepted as a well-formed file, without end-of-line comments -/
+example :
+    let x := B "module \"example.com/m\"\ngo 1.21\ntoolchain go1.21.0\ngodebug a=b\nrequire \"a.b/c\" v1\nexclude a.b/c v1.2\nreplace a.b/c => \"./x y\"\nretract [v1.0.0, v1.1]\ntool a.b/c/cmd\n"
+    (match parseToFile (B "go.mod") x none true with
+     | .ok f => Proofs.ModfileFmtDir.wellFormedB f
+     | .error _ => false) = true ∧ Proofs.ModfileFmtMain.eolComments x = [] := by decide +kernel
+
+/-- non-vacuity (with the stub fixer): accepted, well-formed, no retraction -/
+example :
+    let x := B "module example.com/m\nrequire a.b/c latest\nreplace a.b/c v1 => d.e/f master\n"
+    (match parseToFile (B "go.mod") x (some fixStub) true with
+     | .ok f => Proofs.ModfileFmtDir.wellFormedB f && f.retract.isEmpty
+     | .error _ => false) = true ∧ Proofs.ModfileFmtMain.eolComments x = [] := by decide +kernel
 
 /-! ### A violation of the idempotence clause (finding) -/
 
